@@ -114,4 +114,12 @@ PROPS = {
                                         'hypothesis of the proved (partial) theorem: no standalone PREPREPARE for a view above 0 is delivered to a correct member (known finding KF-1 otherwise)'],
         'notes': ['full statement refuted (C01_full_statement_refuted: a kernel-checked forking run with one Byzantine member out of four); the same script forks the real nodes on every run of this check (KNOWN-FINDING KF-1)'],
     },
+    'C03': {
+        'engines': [{'name': 'world', 'quick_args': ['-n', '60'], 'thorough_args': ['-n', '1200']}, {'name': 'vbc', 'quick_args': ['-n', '1500'], 'thorough_args': ['-n', '20000']}],
+        'corr_modules': ['Term', 'VBC'],
+        'trusted_base': ['theorems in coq/props/C03.v about coq/theories/Term.v and VBC.v (proofs in Cert.v, Own.v, TermFacts.v)'],
+        'assumptions': COMMON_ASSUME + ['signature verification is a function of (signed bytes, signer): a peer with the same key material computes the same flags as the committer',
+                                        'the aggregated random-seed signature of verified shares verifies (key manager contract; the model\'s seed flag of the callback is true)',
+                                        'the peer is configured with the same instance id and committee; total weight < 2^64; the committer is a member of the committee'],
+    },
 }
